@@ -34,14 +34,25 @@ def make_fullres_info(inp, dtype="uint8", channels=1, in_type=None, in_enc=None,
 
 
 def exact_ratio(out, base):
-    """out / base as an exact rational [num, den]; [0, 0] when it does not fit"""
+    """out / base as an exact rational, re-encoded as [e, a, b] with
+    out / base = 2^e * a / b, a and b odd (e may be negative); [0, 0, 0] when
+    a or b does not fit 31 bits or the ratio is not positive"""
     try:
         fr = Fraction(out) / Fraction(base)
     except (ValueError, ZeroDivisionError, TypeError, OverflowError):
-        return [0, 0]
-    if fr.numerator >= LIMIT or fr.denominator >= LIMIT or fr < 0:
-        return [0, 0]
-    return [fr.numerator, fr.denominator]
+        return [0, 0, 0]
+    if fr <= 0:
+        return [0, 0, 0]
+    n, d, e = fr.numerator, fr.denominator, 0
+    while n % 2 == 0:
+        n //= 2
+        e += 1
+    while d % 2 == 0:
+        d //= 2
+        e -= 1
+    if n >= LIMIT or d >= LIMIT or abs(e) > 2000:
+        return [0, 0, 0]
+    return [e, n, d]
 
 
 def _small_int(v):
